@@ -207,7 +207,8 @@ def gen(rng, tier, shape=None):
     flags = sorted(c for c in ["fix", "update"] if rng.random() < 0.5)
     if rng.random() < 0.15:
         flags = sorted(set(flags) | {rng.choice(["create", "trim"])})
-    return {"expr": e, "new": new, "flags": flags, "mode": mode}
+    return {"expr": e, "new": new, "flags": flags, "mode": mode, "uni": rng.random() < 0.2,
+            "dd": e["t"] == "D" and isinstance(new, dict) and rng.random() < 0.3 and "paren" not in e}
 
 
 # ------------------------------------------------------------------ rendering
@@ -273,8 +274,16 @@ R = []
 '''
 
 
-def program(arg_src, new):
-    return (PRELUDE + f"NEW = {new!r}\n\ndef test_a():\n    R.append(bool(NEW == snapshot({arg_src})))\n")
+UNI = False          # set per case by run_impl: non-ASCII text on the line of the snapshot, left of it
+DD = False           # set per case by run_impl: the dict display is the second argument of `defaultdict(list, {...})`
+
+
+def program(arg_src, new, uni=None):
+    pre = "U = 'é✓𝄞'; " if (UNI if uni is None else uni) else ""
+    if DD:
+        return (PRELUDE + f"from collections import defaultdict\nNEW = defaultdict(list, {new!r})\n\ndef test_a():\n"
+                          f"    {pre}R.append(bool(NEW == snapshot(defaultdict(list, {arg_src}))))\n")
+    return (PRELUDE + f"NEW = {new!r}\n\ndef test_a():\n    {pre}R.append(bool(NEW == snapshot({arg_src})))\n")
 
 
 # ------------------------------------------------------------------ s-expressions
@@ -389,6 +398,9 @@ def model_lines(case):
 
 def run_impl(case):
     from .. import impl_inline
+    global UNI, DD
+    UNI = bool(case.get("uni"))
+    DD = bool(case.get("dd"))
     e = case["expr"]
     texts = collect_texts(e, {})
     arg0 = render(e)
@@ -407,8 +419,15 @@ def run_impl(case):
                 calls = impl_inline.snapshot_args(after)
                 node = calls[0][3].args[0]
                 step["arg"] = calls[0][2]
+                if DD:
+                    # the dict display is matched entry by entry through the constructor call (DefaultDictAdapter)
+                    if isinstance(node, ast.Call) and getattr(node.func, "id", None) == "defaultdict" and len(node.args) == 2:
+                        node = node.args[1]
+                        step["arg"] = ast.get_source_segment(after, node)
+                    else:
+                        raise ValueError("not a defaultdict(list, {...}) call any more")
                 step["norm"] = ast_to_norm(node, after, texts)
-                arg = calls[0][2]
+                arg = step["arg"]
             except Exception as ex:  # noqa: BLE001
                 step["norm"] = ["unparsable", type(ex).__name__]
                 step["arg"] = None
@@ -475,6 +494,9 @@ def oracle(case, obs):
     first = runs[0][0]
     if any(first["errors"][:2]) or first["errors"][2]:
         fails.append(("C18", "finish_total", f"old {render(e)} new {new!r} flags {first['flags']}: {first['errors']}"))
+        if "fix" in first["flags"] and managed(e) and not first["errors"][0]:
+            fails.append(("C02", "fix_repairs", f"old {render(e)} new {new!r}{' (non-ASCII text left of the snapshot on its line)' if case.get('uni') else ''}: "
+                          f"fix is approved but nothing was repaired, applying the changes failed: {first['errors']}"))
         return fails
     texts = collect_texts(e, {})
     # C10: every unmanaged text that survives is verbatim; none is altered (it may only disappear with its element)
